@@ -286,6 +286,38 @@ def classify_stall(name, offered):
     return None
 
 
+def coalesced_lines(ctx, symbols, unix, case, hist):
+    """The same server lines, up to the one that ended the line-by-line run, delivered in ONE read (a server may
+    pipeline): the client must write exactly the same lines and end in the same state - in particular nothing after the
+    line that made it close."""
+    n = len(hist)
+    if n < 2:
+        return
+    def norm_(l):
+        # the answer to the cookie challenge carries a random client challenge: compare "right answer", not bytes
+        return b'DATA <right cookie answer>' if l.startswith(b'DATA ') and check_cookie_answer(l) else l
+    ref_out = [norm_(l) for (_, new, _, _) in hist for l in new]
+    ref_closed, ref_auth = hist[-1][2], hist[-1][3]
+    s = ClientSession(unix)
+    s.collect()
+    ctx.count('evaluations')
+    ctx.count('coalesced_sequences')
+    s.ep.feed(b''.join(LINE[name] + b'\r\n' for name in symbols[:n]))
+    out = [norm_(l) for l in s.collect()]
+    w = {'symbols': list(symbols[:n]), 'unix': unix, 'one_read_output': out, 'line_by_line_output': ref_out,
+         'one_read_closed': s.closed, 'line_by_line_closed': ref_closed}
+    if s.ep.crashes:
+        ctx.report(None, 'client crashed with %r when the server lines arrived in one read' % (s.ep.crashes[0],), w, case)
+    elif s.ep.t.after_close_writes or (ref_closed and out != ref_out):
+        ctx.report('write-after-close', 'server lines in one read: the client went on after the line that made it close '
+                   '(wrote %r, line by line it writes %r)' % (out, ref_out), w, case)
+    elif out != ref_out or s.closed != ref_closed or s.p.auth_calls != ref_auth:
+        ctx.report('segmentation-dependent', 'server lines in one read: client wrote %r (closed=%s, authenticated=%s), line '
+                   'by line %r (closed=%s, authenticated=%s)' % (out, s.closed, s.p.auth_calls, ref_out, ref_closed,
+                                                                 ref_auth), w, case)
+    s.finish()
+
+
 # ------------------------------------------------------------------ (b) reference server
 
 class RefServer:
@@ -467,6 +499,9 @@ def run(ctx):
                     hist = run_lines(ctx, seq, unix, {'kind': 'seq', 'symbols': list(seq), 'unix': unix})
                     if len(hist) >= 2:
                         ctx.distinct('nontrivial_cases', (seq, unix))
+                        if n % 3 == (1 if unix else 2) and not ctx.n_new_violations():
+                            coalesced_lines(ctx, seq, unix, {'kind': 'seq', 'symbols': list(seq), 'unix': unix,
+                                                             'coalesced': True}, hist)
                 if n % 4 == 0:
                     r = random.Random(n)
                     run_lines(ctx, seq, bool(n % 2), {'kind': 'seq', 'symbols': list(seq), 'unix': bool(n % 2),
